@@ -813,6 +813,9 @@ func (fr *Frame) ret(x *ssa.Return, st *State, g string) {
 		env := fr.specEnv(st, fr.entry)
 		fr.bindResults(env, res)
 		for i, cl := range fr.spec.Ensures {
+			if !clauseActive(cl) { // ext_propfilter.go: a clause of another property is proved by that property's check
+				continue
+			}
 			t, err := env.evalBool(cl.E)
 			if err != nil {
 				fc.eng.stale(fr.spec, cl, err)
@@ -843,7 +846,7 @@ func (fr *Frame) applyHints(where, calleeKey string, b *ssa.BasicBlock, st *Stat
 	}
 	fc := fr.fc
 	for i, h := range fr.spec.Hints {
-		if h.Where != where {
+		if h.Where != where || !clauseActive(h.Clause) { // ext_propfilter.go
 			continue
 		}
 		if where == "after" && !(strings.HasSuffix(calleeKey, "."+h.Callee) || strings.HasSuffix(calleeKey, ")."+h.Callee) || calleeKey == h.Callee) {
@@ -861,6 +864,9 @@ func (fr *Frame) applyHints(where, calleeKey string, b *ssa.BasicBlock, st *Stat
 			env.vars[fmt.Sprintf("callresult%d", i)] = r
 			if i == 0 {
 				env.vars["callresult"] = r
+			}
+			if i == len(fr.lastCallRes)-1 && r.typ != nil && isErrorType(r.typ) {
+				env.vars["callerr"] = r // the last result of the call, if it is an error
 			}
 		}
 		t, err := env.evalBool(h.Clause.E)
@@ -886,7 +892,11 @@ func (fr *Frame) applyHints(where, calleeKey string, b *ssa.BasicBlock, st *Stat
 		if label == "" {
 			label = fmt.Sprint(i)
 		}
-		fc.oblige(fr, "hint", label, g, t, token.NoPos, h.Clause.Text, fr.props())
+		hprops := h.Clause.Props
+		if len(hprops) == 0 {
+			hprops = fr.props()
+		}
+		fc.oblige(fr, "hint", label, g, t, token.NoPos, h.Clause.Text, hprops)
 	}
 }
 
@@ -1067,7 +1077,17 @@ func (fr *Frame) localsAt(h *ssa.BasicBlock, pidx int) (map[string]func(*State) 
 			if !ok {
 				break
 			}
-			if phi.Comment == "" || strings.HasPrefix(phi.Comment, "range") {
+			if phi.Comment == "" {
+				continue
+			}
+			if strings.HasPrefix(phi.Comment, "range") {
+				// the index phi of an EARLIER loop (already left at h): addressable as rangeindex_<loop ordinal> — the index of the
+				// last element processed when the loop was left (needed by `hint return` after a loop)
+				if li := fr.loops[b]; li != nil && !li.body[h] {
+					if sv, known := fr.vals[phi]; known {
+						out[fmt.Sprintf("%s_%d", strings.ReplaceAll(phi.Comment, ".", "_"), li.ordinal)] = func(*State) SV { return sv }
+					}
+				}
 				continue
 			}
 			if sv, known := fr.vals[phi]; known {
@@ -1201,6 +1221,9 @@ func valueBlock(v ssa.Value) *ssa.BasicBlock {
 func (fr *Frame) invariantsOf(li *loopInfo) []Clause {
 	if fr.spec == nil {
 		return nil
+	}
+	if fr.top {
+		return activeClauses(fr.spec.LoopInv[li.ordinal]) // ext_propfilter.go
 	}
 	return fr.spec.LoopInv[li.ordinal]
 }
